@@ -5,8 +5,9 @@ wrapper attributes (`_simulation_unfinished`, `_script`/`_units_system`), for up
 loaded from the same shared library (they share the globals).
 
 Pointers are `null | live obj | dangling`; an entry point that dereferences a non-live pointer, or
-deletes a dangling one, is a `fault` (undefined behaviour of the real code: crash / garbage), after
-which the model stops (`crashed`).  Python-level exceptions are `raised`.
+deletes a dangling one, or overflows the output buffer, is a `fault` (undefined behaviour of the real
+code: crash / garbage), after which the model stops (`crashed`).  Every entry point first tests
+`global_algo_freed` and returns 0 when no simulation is set up.  Python-level exceptions are `raised`.
 
 The algorithm object is `NSim` = sampler members (`Model/Sampler.lean`) + the `Init` arguments it keeps.
 Core Lean only.
@@ -119,11 +120,14 @@ def setCur (n : Native σ ω) (p : Ptr (NSim σ ω)) : Native σ ω :=
 
 def crash (w : World σ ω) : World σ ω × Obs ω := ({ w with crashed := true }, .fault)
 
-/-- run `f` on the live current algorithm object -/
-def onSim (w : World σ ω) (f : NSim σ ω → World σ ω × Obs ω) : World σ ω × Obs ω :=
-  match cur w.native with
-  | .live m => f m
-  | _ => w.crash
+/-- an entry point: `if(global_algo_freed) return 0;` (answer `dead`), else run `f` on the current algorithm
+object, which must be live -/
+def onSim (w : World σ ω) (dead : World σ ω × Obs ω) (f : NSim σ ω → World σ ω × Obs ω) : World σ ω × Obs ω :=
+  if w.native.freed then dead
+  else
+    match cur w.native with
+    | .live m => f m
+    | _ => w.crash
 
 def putSim (w : World σ ω) (m : NSim σ ω) (s : Sim σ ω) : World σ ω :=
   { w with native := setCur w.native (.live { m with sim := s }) }
@@ -139,6 +143,27 @@ def nativeInit (n : Native σ ω) (sc : Setup σ ω) : Native σ ω :=
 def drive (w : World σ ω) (o : Obj) (m : NSim σ ω) (r : Sim σ ω × Bool) : World σ ω × Obs ω :=
   ((w.putSim m r.1).setObj o { (w.obj o) with unfinished := r.2 }, .bool r.2)
 
+/-- a drive entry point on a released / never set-up library returns 0: "finished" -/
+def driveDead (w : World σ ω) (o : Obj) : World σ ω × Obs ω :=
+  (w.setObj o { (w.obj o) with unfinished := false }, .bool false)
+
+/-- `get_output()` when the library holds no simulation: `engineexport_get_nsamples` is 0 — an empty trajectory
+(or an AttributeError when this object was never set up) -/
+def outputDead (w : World σ ω) (o : Obj) : World σ ω × Obs ω :=
+  match (w.obj o).script with
+  | none => (w, .raised)
+  | some _ => (w, .output [] [])
+
+/-- `get_output()` on a live simulation -/
+def outputOf (w : World σ ω) (o : Obj) (m : NSim σ ω) : World σ ω × Obs ω :=
+  match (w.obj o).script with
+  | none => (w, .raised)
+  | some sc =>
+    if m.sim.recs.length = 0 ∨ m.size = sc.stateSize then
+      (w, .output (exportTimes m.sim.recs) (m.sim.recs.map (·.2)))
+    else if sc.stateSize < m.size then w.crash
+    else (w, .garbled)
+
 /-- one API call on object `o` -/
 def call (w : World σ ω) (o : Obj) (c : Call σ ω) : World σ ω × Obs ω :=
   if w.crashed then (w, .fault)
@@ -148,23 +173,16 @@ def call (w : World σ ω) (o : Obj) (c : Call σ ω) : World σ ω × Obs ω :=
       let w1 := w.setObj o { unfinished := true, script := some sc }
       if sc.raises then (w1, .raised)
       else ({ w1 with native := nativeInit w1.native sc }, .unit)
-    | .iterate => w.onSim fun m => w.drive o m (Sim.iterate m.algo m.cfg m.sim)
+    | .iterate => w.onSim (w.driveDead o) fun m => w.drive o m (Sim.iterate m.algo m.cfg m.sim)
     | .iterateN n =>
-      if n.toNat = 0 then (w.setObj o { (w.obj o) with unfinished := true }, .bool true)
-      else w.onSim fun m => w.drive o m (Sim.iterateN m.algo m.cfg n.toNat m.sim)
-    | .run k => w.onSim fun m => w.drive o m (Sim.run m.algo m.cfg k m.sim)
-    | .sample => w.onSim fun m => (w.putSim m (m.sim.sample m.algo), .unit)
-    | .getProgress => w.onSim fun m => (w, .num (Sim.progress m.cfg m.sim))
+      -- `LibRDEngine.iterate_n`: a non-positive count returns the current status without a native call
+      if n ≤ 0 then (w, .bool (w.obj o).unfinished)
+      else w.onSim (w.driveDead o) fun m => w.drive o m (Sim.iterateN m.algo m.cfg n.toNat m.sim)
+    | .run k => w.onSim (w.driveDead o) fun m => w.drive o m (Sim.run m.algo m.cfg k m.sim)
+    | .sample => w.onSim (w, .unit) fun m => (w.putSim m (m.sim.sample m.algo), .unit)
+    | .getProgress => w.onSim (w, .num 0) fun m => (w, .num (Sim.progress m.cfg m.sim))
     | .isComplete => (w, .bool (!(w.obj o).unfinished))
-    | .getOutput =>
-      w.onSim fun m =>
-        match (w.obj o).script with
-        | none => (w, .raised)
-        | some sc =>
-          if m.sim.recs.length = 0 ∨ m.size = sc.stateSize then
-            (w, .output (exportTimes m.sim.recs) (m.sim.recs.map (·.2)))
-          else if sc.stateSize < m.size then w.crash
-          else (w, .garbled)
+    | .getOutput => w.onSim (w.outputDead o) fun m => w.outputOf o m
     | .finalize =>
       if w.native.freed then (w, .unit)
       else
